@@ -71,15 +71,16 @@ func init() {
 
 // idxEnv is a badger store with a query store over two indexes.
 type idxEnv struct {
-	db     *badger.DB
-	dir    string
-	st     *badgerstore.Store
-	qs     *badgerstore.QueryStore
-	typed  bool
-	prefix string
-	model  map[string]interface{} // id -> value
-	slow   int32                  // when set, the key function of index "k" sleeps
-	keyHit int64
+	db      *badger.DB
+	dir     string
+	st      *badgerstore.Store
+	qs      *badgerstore.QueryStore
+	typed   bool
+	prefix  string
+	model   map[string]interface{} // id -> value (written by the mutating goroutine under modelMu)
+	modelMu sync.Mutex
+	slow    int32 // when set, the key function of index "k" sleeps
+	keyHit  int64
 }
 
 func idxKey(field string, env *idxEnv) func(interface{}) []byte {
@@ -262,20 +263,24 @@ func (e *idxEnv) mutate(r *rand.Rand, ids []string, n int) (idxMut, interface{},
 	case before == nil:
 		m.Op, m.K, m.K2 = "create", k, k2
 		v := mkValue2(e.typed, fmt.Sprintf("u%d", n), k, k2)
+		// the model is updated before the store call: the index worker's callbacks read it
+		// as soon as the mutation is committed
+		e.setModel(id, v)
 		if err := wt.Create(v); err != nil {
+			e.setModel(id, before)
 			m.Err = err.Error()
 			return m, before, before
 		}
 		atomic.AddInt64(&idxTasksEnqueued, 1)
-		e.model[id] = v
 	case r.Intn(4) == 0:
 		m.Op = "delete"
+		e.setModel(id, nil)
 		if err := wt.Delete(); err != nil {
+			e.setModel(id, before)
 			m.Err = err.Error()
 			return m, before, before
 		}
 		atomic.AddInt64(&idxTasksEnqueued, 1)
-		delete(e.model, id)
 	default:
 		m.Op = "update"
 		if r.Intn(3) == 0 { // keep keys, change payload only
@@ -286,14 +291,37 @@ func (e *idxEnv) mutate(r *rand.Rand, ids []string, n int) (idxMut, interface{},
 		}
 		m.K, m.K2 = k, k2
 		v := mkValue2(e.typed, fmt.Sprintf("u%d", n), k, k2)
+		e.setModel(id, v)
 		if err := wt.Update(v); err != nil {
+			e.setModel(id, before)
 			m.Err = err.Error()
 			return m, before, before
 		}
 		atomic.AddInt64(&idxTasksEnqueued, 1)
-		e.model[id] = v
 	}
 	return m, before, e.model[id]
+}
+
+// setModel sets (v != nil) or removes the model value of id under the model lock.
+func (e *idxEnv) setModel(id string, v interface{}) {
+	e.modelMu.Lock()
+	if v == nil {
+		delete(e.model, id)
+	} else {
+		e.model[id] = v
+	}
+	e.modelMu.Unlock()
+}
+
+// modelSnapshot returns a copy of the model taken under the model lock.
+func (e *idxEnv) modelSnapshot() map[string]interface{} {
+	e.modelMu.Lock()
+	defer e.modelMu.Unlock()
+	cp := make(map[string]interface{}, len(e.model))
+	for k, v := range e.model {
+		cp[k] = v
+	}
+	return cp
 }
 
 // burst: one writer mutates a few ids much faster than the slowed index worker
@@ -340,18 +368,18 @@ func (e *idxEnv) mutateTxn(r *rand.Rand, ids []string, n int) (muts []idxMut, be
 			m.Op, m.K, m.K2 = "create", key, k2
 			v := mkValue2(e.typed, fmt.Sprintf("u%d.%d", n, k), key, k2)
 			if err = wt.Create(v); err == nil {
-				e.model[id] = v
+				e.setModel(id, v)
 			}
 		case r.Intn(4) == 0:
 			m.Op = "delete"
 			if err = wt.Delete(); err == nil {
-				delete(e.model, id)
+				e.setModel(id, nil)
 			}
 		default:
 			m.Op, m.K, m.K2 = "update", key, k2
 			v := mkValue2(e.typed, fmt.Sprintf("u%d.%d", n, k), key, k2)
 			if err = wt.Update(v); err == nil {
-				e.model[id] = v
+				e.setModel(id, v)
 			}
 		}
 		if err != nil {
@@ -431,7 +459,7 @@ func (e *idxEnv) checkQueries(c *core.Ctx, prop string, hist []idxMut, qs []idxQ
 			if q.Offset > 0 || q.Limit >= 0 {
 				cls += "-window"
 			}
-			c.Violation("C13/query-mismatch:"+cls, fmt.Sprintf("Query %+v returned %v, reference scan gives %v (%s)", q, got, want, tag),
+			c.Violation(prop+"/query-mismatch:"+cls, fmt.Sprintf("Query %+v returned %v, reference scan gives %v (%s)", q, got, want, tag),
 				map[string]interface{}{"query": q, "got": got, "want": want, "typed": e.typed, "prefix": e.prefix, "history_tail": h})
 		}
 		if len(want) > 0 || q.Offset > 0 {
